@@ -96,6 +96,8 @@ type Hooks struct {
 	Lit       func(x *Explorer, lit *ast.FuncLit, st *State)
 	Stmt      func(x *Explorer, n ast.Node, st *State) // every CFG node, before its parts
 	Use       func(x *Explorer, e ast.Expr, st *State) // every evaluated identifier/selector (loads)
+	// Branch runs after a block's condition was assumed true/false on the way to a successor
+	Branch func(x *Explorer, cond ast.Expr, val bool, st *State)
 }
 
 type ExitKind int
@@ -284,11 +286,17 @@ func (x *Explorer) runFrom(b0 *cfg.Block, firstNode int, init *State) {
 				}
 				t := st.Clone()
 				if x.Assume(cond, true, t) {
+					if x.Hooks.Branch != nil {
+						x.Hooks.Branch(x, cond, true, t)
+					}
 					clearTemps(t)
 					work = append(work, &xnode{b: n.b.Succs[0], st: t, parent: n, label: fmt.Sprintf("L%d: %s", x.P.Line(cond.Pos()), Str(cond))})
 				}
 				f := st
 				if x.Assume(cond, false, f) {
+					if x.Hooks.Branch != nil {
+						x.Hooks.Branch(x, cond, false, f)
+					}
 					clearTemps(f)
 					work = append(work, &xnode{b: n.b.Succs[1], st: f, parent: n, label: fmt.Sprintf("L%d: !(%s)", x.P.Line(cond.Pos()), Str(cond))})
 				}
@@ -568,9 +576,38 @@ func (x *Explorer) assign(lhs, rhs ast.Expr, stmt ast.Node, st *State) {
 			}
 		}
 	}
+	// a freshly made value is not nil
+	if rhs != nil && x.freshValue(rhs) {
+		probe := &ast.BinaryExpr{X: lhs, Op: token.EQL, Y: ast.NewIdent("nil")}
+		if lk, ok := x.key(Unparen(lhs)); ok {
+			k := lk + " == nil"
+			if "nil" < lk {
+				k = "nil == " + lk
+			}
+			x.meta(k, probe.X)
+			st.Facts[k] = false
+		}
+	}
 	if x.Hooks.Assign != nil {
 		x.Hooks.Assign(x, lhs, rhs, stmt, st)
 	}
+}
+
+// freshValue: make(...), new(...), a composite literal or the address of one.
+func (x *Explorer) freshValue(e ast.Expr) bool {
+	switch v := Unparen(e).(type) {
+	case *ast.CompositeLit:
+		return true
+	case *ast.UnaryExpr:
+		if v.Op == token.AND {
+			_, ok := Unparen(v.X).(*ast.CompositeLit)
+			return ok
+		}
+	case *ast.CallExpr:
+		n := CalleeName(x.Fn.Info(), v)
+		return n == "builtin.make" || n == "builtin.new"
+	}
+	return false
 }
 
 func (x *Explorer) assignZero(lhs ast.Expr, stmt ast.Node, st *State) {
